@@ -70,6 +70,13 @@ def main(tier, replay=None):
     batches = []
     for cfg, share, cnt in (("swarm", 1.0, 16000), ("pct", 0.5, 8000), ("random", 0.5, 8000)):
         batches.append(Batch(cfg, exe, "C14", cfg, seed, cnt if q else 10**8, max(2, int(secs * share)), W, samples=(cfg == "swarm"), extra=extra(cfg)).run())
+    # small scope, complete: 12 pairs of one-validation programs x either thread first x every schedule with at most two
+    # preemptions among the first 48 scheduling points (thorough: six laps over modes and call kinds)
+    LAP = 12 * 2 * (1 + 48 + 48 * 47 // 2)
+    sysb = Batch("systematic", exe, "C14", "systematic", seed, LAP if q else 6 * LAP, 0, W, extra=extra("systematic")).run()
+    batches.append(sysb)
+    # conflict-directed small scope: label pairs whose look-ups touch the same bytes of library static storage (none on the unchanged tree)
+    batches.append(Batch("conflict", exe, "C14", "conflict", seed, 64 * 4 * 529 if not q else 40000, 90 if q else 240, W, extra=extra("conflict")).run())
     # the libidn and idnkit source sets over their adapters: their eav.c / is_utf8_domain.c / is_6531_email.c copies are library code too
     for bk in ("idn", "idnkit"):
         exe_b, _ = build.build_sched("-" + bk, [], backend=bk)
@@ -136,6 +143,8 @@ def main(tier, replay=None):
                                         "libc string/memory/allocator/pthread_mutex/rwlock/once calls made by the library: wrapped (-Wl,--wrap), logged, real implementation (mutex/once are modelled)"],
                        "tree": build.tree_fingerprint()},
         "known_findings_reported": known, "nondeterministic_reports": nondet,
+        "small_scope_schedule_enumeration": {"program_pairs": 12, "first_thread": 2, "scheduling_points_considered": 48, "max_preemptions": 2,
+                                             "schedules_per_lap": LAP, "plans_enumerated": sysb.done, "complete": sysb.done >= (LAP if q else 6 * LAP)},
     }
     zero = []
     for k in ("random", "round_robin", "pct", "targeted"):
